@@ -149,6 +149,7 @@ def dispatch (op : String) (args : List Sexp) : String :=
   | "gds.open" => opGdsRead (args.take 1)      -- a file holds the same bytes: the model reads them the same way
   | "lefraw.import" => opLefRawImport args
   | "place" => opPlace args
+  | "place.retry" => opPlaceRetry args
   | "place.array" => opPlaceArray args
   | "rawgds.export" => opRawGdsExport args
   | "gdsraw.import" => opGdsRawImport args
